@@ -51,6 +51,51 @@ fn build_request(op: &[&str]) -> Option<Request<Body>> {
     b.body(Body::empty()).ok()
 }
 
+/// One request through the real `Server::handle_request`; the observation token of the module doc.
+fn observe(rt: &tokio::runtime::Runtime, req: Request<Body>, metrics: &rotonda::metrics::Collection, resources: &Resources) -> String {
+    let res = std::panic::catch_unwind(std::panic::AssertUnwindSafe(|| {
+        rt.block_on(async {
+            let res = Server::verif_handle_request(req, metrics, resources).await;
+            let status = res.status().as_u16();
+            let encs: Vec<String> = res.headers().get_all("Content-Encoding").iter()
+                .map(|v| String::from_utf8_lossy(v.as_bytes()).to_string()).collect();
+            let body = hyper::body::to_bytes(res.into_body()).await.unwrap().to_vec();
+            (status, encs, body)
+        })
+    }));
+    match res {
+        Err(e) => { if std::env::var("C12_PANIC_MSG").is_ok() { eprintln!("panic: {}", crate::util::panic_msg(&e)); } "PANIC".into() }
+        Ok((status, encs, body)) => {
+            let (enc, plain) = match encs.as_slice() {
+                [] => ("-".to_string(), Some(body)),
+                [e] if e == "gzip" => {
+                    let mut d = vh::flate2::read::GzDecoder::new(&body[..]);
+                    let mut v = vec![];
+                    match d.read_to_end(&mut v) { Ok(_) => ("gzip".to_string(), Some(v)), Err(_) => ("badgzip".to_string(), None) }
+                }
+                other => (format!("enc[{}]", other.join("+")), None),
+            };
+            let mut t = format!("{status},{enc}");
+            if (400..500).contains(&status) {
+                t.push_str(match plain { Some(b) if !b.is_empty() => ",r", _ => ",e" });
+            }
+            t
+        }
+    }
+}
+
+fn stub(pfx: String, code: u16) -> Arc<dyn ProcessRequest> {
+    let f = move |req: &Request<Body>| {
+        use rotonda::http::PercentDecodedPath;
+        if req.uri().decoded_path().starts_with(pfx.as_str()) {
+            Some(hyper::Response::builder().status(code).body(Body::from("stub")).unwrap())
+        } else {
+            None
+        }
+    };
+    Arc::new(f)
+}
+
 pub fn run_case(line: &str) -> String {
     let rt = tokio::runtime::Builder::new_current_thread().enable_all().build().unwrap();
     let manager = rotonda::manager::Manager::new();
@@ -74,19 +119,7 @@ pub fn run_case(line: &str) -> String {
                     "info" => Held::Info(
                         vh::router_info_api(resources.clone(), &base, INFO_ROUTER_ID, INFO_ADDR.parse().unwrap()).0,
                     ),
-                    "stub" => {
-                        let code: u16 = parts[2].parse().unwrap();
-                        let pfx = base.clone();
-                        let f = move |req: &Request<Body>| {
-                            use rotonda::http::PercentDecodedPath;
-                            if req.uri().decoded_path().starts_with(pfx.as_str()) {
-                                Some(hyper::Response::builder().status(code).body(Body::from("stub")).unwrap())
-                            } else {
-                                None
-                            }
-                        };
-                        Held::Proc(Arc::new(f))
-                    }
+                    "stub" => Held::Proc(stub(base.clone(), parts[2].parse().unwrap())),
                     k => panic!("bad kind {k}"),
                 };
                 let p = match &h { Held::Proc(p) => p.clone(), Held::Info(i) => i.processor.clone() };
@@ -97,35 +130,7 @@ pub fn run_case(line: &str) -> String {
             "D" => { held.remove(op[1]); }
             "Q" => {
                 let req = match build_request(&op) { Some(r) => r, None => { out.push("rejected".into()); continue; } };
-                let res = std::panic::catch_unwind(std::panic::AssertUnwindSafe(|| {
-                    rt.block_on(async {
-                        let res = Server::verif_handle_request(req, &metrics, &resources).await;
-                        let status = res.status().as_u16();
-                        let encs: Vec<String> = res.headers().get_all("Content-Encoding").iter()
-                            .map(|v| String::from_utf8_lossy(v.as_bytes()).to_string()).collect();
-                        let body = hyper::body::to_bytes(res.into_body()).await.unwrap().to_vec();
-                        (status, encs, body)
-                    })
-                }));
-                match res {
-                    Err(e) => { if std::env::var("C12_PANIC_MSG").is_ok() { eprintln!("panic: {}", crate::util::panic_msg(&e)); } out.push("PANIC".into()) }
-                    Ok((status, encs, body)) => {
-                        let (enc, plain) = match encs.as_slice() {
-                            [] => ("-".to_string(), Some(body)),
-                            [e] if e == "gzip" => {
-                                let mut d = vh::flate2::read::GzDecoder::new(&body[..]);
-                                let mut v = vec![];
-                                match d.read_to_end(&mut v) { Ok(_) => ("gzip".to_string(), Some(v)), Err(_) => ("badgzip".to_string(), None) }
-                            }
-                            other => (format!("enc[{}]", other.join("+")), None),
-                        };
-                        let mut t = format!("{status},{enc}");
-                        if (400..500).contains(&status) {
-                            t.push_str(match plain { Some(b) if !b.is_empty() => ",r", _ => ",e" });
-                        }
-                        out.push(t);
-                    }
-                }
+                out.push(observe(&rt, req, &metrics, &resources));
             }
             _ => panic!("bad op {:?}", op),
         }
@@ -134,4 +139,338 @@ pub fn run_case(line: &str) -> String {
     out.join(" ")
 }
 
-pub fn special(_name: &str, _args: &[String]) -> bool { false }
+
+// ===================================================================================================
+// Concurrency stages (supporting evidence for Http/ConcModel.v; real threads, real code)
+// ===================================================================================================
+
+pub fn special(name: &str, args: &[String]) -> bool {
+    match name {
+        "c12-regrace" => { regrace(args); true }
+        "c12-statelock" => { statelock(args); true }
+        _ => false,
+    }
+}
+
+/// splitmix64: the workload of a stage is a function of its seed only
+struct Sm(u64);
+impl Sm {
+    fn next(&mut self) -> u64 {
+        self.0 = self.0.wrapping_add(0x9e3779b97f4a7c15);
+        let mut z = self.0;
+        z = (z ^ (z >> 30)).wrapping_mul(0xbf58476d1ce4e5b9);
+        z = (z ^ (z >> 27)).wrapping_mul(0x94d049bb133111eb);
+        z ^ (z >> 31)
+    }
+    fn below(&mut self, n: u64) -> u64 { self.next() % n }
+}
+
+fn hexs(s: &str) -> String { s.bytes().map(|b| format!("{b:02x}")).collect() }
+
+#[derive(Clone)]
+enum ROp { Reg { id: String, base: String, code: u16, sub: bool }, Drop { id: String } }
+
+/// c12-regrace <threads> <endpoints-per-thread> <rounds> <seed>
+///
+/// Per round: `threads` components register their endpoints at the same moment on clones of ONE
+/// `Resources` (that of `Manager::new()`) through the real `Resources::register`, some of them drop a
+/// processor again while the others are still registering. An endpoint is a path prefix `/c<t>/e<j>/`
+/// with a main resource, a sub-resource shadowing it, or both (in either order). Afterwards every
+/// endpoint is requested through the real `Server::handle_request`; by C12_conc_requests_as_sequential
+/// the answers must be those of ANY sequential history of the same calls (here: the threads' programs
+/// one after the other). Prints: verdict line, that sequential history as a case of engine c12 (for the
+/// extracted model), the observed answers.
+fn regrace(args: &[String]) {
+    let threads: usize = args.first().and_then(|s| s.parse().ok()).unwrap_or(8);
+    let per: usize = args.get(1).and_then(|s| s.parse().ok()).unwrap_or(48);
+    let rounds: usize = args.get(2).and_then(|s| s.parse().ok()).unwrap_or(10);
+    let seed: u64 = args.get(3).and_then(|s| s.parse().ok()).unwrap_or(1);
+    let rt = tokio::runtime::Builder::new_current_thread().enable_all().build().unwrap();
+    let metrics = rotonda::metrics::Collection::default();
+    let mut total_regs = 0usize;
+    let mut total_reqs = 0usize;
+    let mut last = (String::new(), String::new());
+    for round in 0..rounds {
+        let mut rng = Sm(seed.wrapping_mul(1_000_003).wrapping_add(round as u64));
+        // the programs and, per endpoint, the status a sequential history answers with
+        let mut progs: Vec<Vec<ROp>> = vec![];
+        let mut endpoints: Vec<(String, u16)> = vec![];
+        for t in 0..threads {
+            let mut prog: Vec<ROp> = vec![];
+            let mut pending: Vec<(usize, String)> = vec![];
+            for j in 0..per {
+                let base = format!("/c{t}/e{j}/");
+                let e = t * per + j;
+                let (mc, sc) = (200 + (e % 3) as u16, 210 + (e % 3) as u16);
+                let m = ROp::Reg { id: format!("t{t}e{j}m"), base: base.clone(), code: mc, sub: false };
+                let s = ROp::Reg { id: format!("t{t}e{j}s"), base: base.clone(), code: sc, sub: true };
+                let shape = rng.below(4);
+                let (has_m, has_s) = match shape { 0 => (true, false), 1 => (false, true), _ => (true, true) };
+                match shape { 0 => prog.push(m), 1 => prog.push(s), 2 => { prog.push(m); prog.push(s) } _ => { prog.push(s); prog.push(m) } }
+                let dropped = rng.below(6) == 0;
+                let mut expect = if has_s { sc } else { mc };
+                if dropped {
+                    let (which, after) = if has_s { ("s", if has_m { mc } else { 404 }) } else { ("m", 404) };
+                    pending.push((prog.len() + rng.below(6) as usize, format!("t{t}e{j}{which}")));
+                    expect = after;
+                }
+                endpoints.push((base, expect));
+                let (due, later): (Vec<_>, Vec<_>) = pending.into_iter().partition(|(at, _)| *at <= prog.len());
+                pending = later;
+                for (_, id) in due { prog.push(ROp::Drop { id }); }
+            }
+            for (_, id) in pending { prog.push(ROp::Drop { id }); }
+            progs.push(prog);
+        }
+        let manager = rotonda::manager::Manager::new();
+        let resources: Resources = manager.http_resources();
+        let barrier = Arc::new(std::sync::Barrier::new(threads));
+        let handles: Vec<_> = progs.iter().cloned().map(|prog| {
+            let resources = resources.clone();
+            let barrier = barrier.clone();
+            std::thread::spawn(move || {
+                let mut held: HashMap<String, Arc<dyn ProcessRequest>> = HashMap::new();
+                barrier.wait();
+                for op in prog {
+                    match op {
+                        ROp::Reg { id, base, code, sub } => {
+                            let p = stub(base.clone(), code);
+                            resources.register(Arc::downgrade(&p), "verif".into(), "verif", &base, sub);
+                            held.insert(id, p);
+                        }
+                        ROp::Drop { id } => { held.remove(&id); }
+                    }
+                }
+                held
+            })
+        }).collect();
+        let held: Vec<_> = handles.into_iter().map(|h| h.join().expect("a registering thread panicked")).collect();
+        total_regs += progs.iter().flatten().filter(|o| matches!(o, ROp::Reg { .. })).count();
+        // every endpoint, through the real handler
+        let mut obs: Vec<String> = vec![];
+        let mut bad: Vec<String> = vec![];
+        for (base, expect) in &endpoints {
+            let req = Request::builder().method("GET").uri(format!("{base}x")).body(Body::empty()).unwrap();
+            let tok = observe(&rt, req, &metrics, &resources);
+            let status: u16 = tok.split(',').next().and_then(|s| s.parse().ok()).unwrap_or(0);
+            if status != *expect { bad.push(format!("{base} expected={expect} got={tok}")); }
+            obs.push(tok);
+            total_reqs += 1;
+        }
+        let follow = Request::builder().method("GET").uri("/status").body(Body::empty()).unwrap();
+        obs.push(observe(&rt, follow, &metrics, &resources));
+        let mut case: Vec<String> = vec![];
+        for op in progs.iter().flatten() {
+            case.push(match op {
+                ROp::Reg { id, base, code, sub } => format!("R {id} stub:{}:{code} {}", hexs(base), *sub as u8),
+                ROp::Drop { id } => format!("D {id}"),
+            });
+        }
+        for (base, _) in &endpoints { case.push(format!("Q 0 {} - -", hexs(&format!("{base}x")))); }
+        case.push(format!("Q 0 {} - -", hexs("/status")));
+        last = (case.join(";"), obs.join(" "));
+        drop(held);
+        drop(manager);
+        if !bad.is_empty() {
+            println!("lost round={round} wrong={} of {} first: {}", bad.len(), endpoints.len(), bad[0]);
+            println!("{}", last.0);
+            println!("{}", last.1);
+            return;
+        }
+    }
+    println!("ok rounds={rounds} threads={threads} registrations={total_regs} requests={total_reqs}");
+    println!("{}", last.0);
+    println!("{}", last.1);
+}
+
+/// What became of a request that runs in a task of its own (like the server's connection tasks).
+async fn settle(h: &mut tokio::task::JoinHandle<u16>, ms: u64) -> String {
+    match tokio::time::timeout(std::time::Duration::from_millis(ms), h).await {
+        Err(_) => "blocked".into(),
+        Ok(Ok(status)) => status.to_string(),
+        Ok(Err(e)) => if e.is_panic() { "PANIC".into() } else { "cancelled".into() },
+    }
+}
+
+/// One BMP connection through the real `RouterHandler` (StreamFixture over an in-memory pipe) with the
+/// unit's router list and the router's info endpoint built over the SAME state machine mutex and
+/// registered in the `Resources` of a `Manager`; requests go through the real
+/// `Server::handle_request`, each in a task of its own (multi-thread runtime).
+struct Scenario {
+    fx: Arc<rotonda::verif::bmp_stream::StreamFixture>,
+    resources: Resources,
+    metrics: Arc<rotonda::metrics::Collection>,
+    tx: Option<tokio::io::DuplexStream>,
+    conn: Option<tokio::task::JoinHandle<()>>,
+    info_path: String,
+    _manager: rotonda::manager::Manager,
+    _held: Vec<Arc<dyn ProcessRequest>>,
+}
+
+impl Scenario {
+    async fn new() -> Result<Self, String> {
+        use std::time::{Duration, Instant};
+        use tokio::io::AsyncWriteExt;
+        let render = crate::engines::bstream::render;
+        let fx = Arc::new(rotonda::verif::bmp_stream::StreamFixture::new("198.51.100.1:11019".parse().unwrap()).await);
+        let manager = rotonda::manager::Manager::new();
+        let resources: Resources = manager.http_resources();
+        let (list, info) = fx.http_processors(resources.clone(), "/routers/");
+        resources.register(Arc::downgrade(&list), "verif".into(), "bmp-tcp-in", "/routers/", false);
+        resources.register(Arc::downgrade(&info), "verif".into(), "bmp-tcp-in", "/routers/", true);
+        let (mut tx, rx) = tokio::io::duplex(1 << 16);
+        let conn = { let fx = fx.clone(); tokio::spawn(async move { fx.run(rx).await }) };
+        // Initiation + Peer Up: the router is dumping
+        tx.write_all(&render("I")).await.unwrap();
+        tx.write_all(&render("U.0.1")).await.unwrap();
+        let t0 = Instant::now();
+        while fx.phase().await != 1 {
+            if t0.elapsed() > Duration::from_secs(3) { return Err("broken the router did not reach the dumping phase".into()); }
+            tokio::time::sleep(Duration::from_millis(1)).await;
+        }
+        let info_path = format!("/routers/{}", fx.router_id);
+        Ok(Self { fx, resources, metrics: Arc::new(Default::default()), tx: Some(tx), conn: Some(conn), info_path, _manager: manager, _held: vec![list, info] })
+    }
+
+    fn get(&self, path: String) -> tokio::task::JoinHandle<u16> {
+        let (resources, metrics) = (self.resources.clone(), self.metrics.clone());
+        tokio::spawn(async move {
+            let req = Request::builder().method("GET").uri(path).body(Body::empty()).unwrap();
+            let res = Server::verif_handle_request(req, &metrics, &resources).await;
+            let status = res.status().as_u16();
+            let _ = hyper::body::to_bytes(res.into_body()).await;
+            status
+        })
+    }
+
+    fn path_of(&self, kind: &str) -> String {
+        match kind { "I" => self.info_path.clone(), "L" => "/routers/".to_string(), k => panic!("bad request kind {k}") }
+    }
+
+    /// The schedule of C12_statelock_release_refuted with the given requests (I = router info,
+    /// L = router list): they are made (1) while the router is idle, (2) while the connection task
+    /// sits inside process_msg - the downstream end of the gate applies back-pressure, so
+    /// `gate.update_data(..).await` does not return -, and (3) the back-pressure ends.
+    /// `idle <status>.. window <status|blocked|PANIC>.. after <status|blocked|PANIC>..`
+    async fn probe(&mut self, kinds: &[&str]) -> String {
+        use std::time::{Duration, Instant};
+        use tokio::io::AsyncWriteExt;
+        let render = crate::engines::bstream::render;
+        let mut idle = vec![];
+        for k in kinds { idle.push(settle(&mut self.get(self.path_of(k)), 3000).await); }
+        self.fx.hold_updates(true);
+        self.tx.as_mut().unwrap().write_all(&render("R.0.0.1.1+2.0.-")).await.unwrap();
+        let t0 = Instant::now();
+        while self.fx.parked() == 0 {
+            if t0.elapsed() > Duration::from_secs(3) { self.fx.hold_updates(false); return "broken the route monitoring message never reached the gate".into(); }
+            tokio::time::sleep(Duration::from_millis(1)).await;
+        }
+        let mut hs: Vec<_> = vec![];
+        for k in kinds { hs.push(self.get(self.path_of(k))); tokio::time::sleep(Duration::from_millis(2)).await; }
+        tokio::time::sleep(Duration::from_millis(120)).await;
+        let mut window = vec![];
+        for h in hs.iter_mut() { window.push(if h.is_finished() { settle(h, 1000).await } else { "blocked".to_string() }); }
+        self.fx.hold_updates(false);
+        let mut after = vec![];
+        for (h, w) in hs.iter_mut().zip(window.iter()) { after.push(if w == "blocked" { settle(h, 3000).await } else { w.clone() }); }
+        format!("idle {} window {} after {}", idle.join(" "), window.join(" "), after.join(" "))
+    }
+
+    async fn finish(&mut self) -> &'static str {
+        drop(self.tx.take());
+        let ended = tokio::time::timeout(std::time::Duration::from_secs(5), self.conn.take().unwrap()).await;
+        self.fx.terminate().await;
+        match ended { Ok(Ok(())) => "ended", Ok(Err(_)) => "PANICKED", Err(_) => "still-running" }
+    }
+}
+
+/// Engine c12lock (line protocol; same grammar as oracle/eng_c12lock.ml): a case is a sequence of
+/// request kinds `I` / `L`; the observation is that of `Scenario::probe`.
+pub fn probe_case(line: &str) -> String {
+    let kinds: Vec<&str> = line.split_whitespace().collect();
+    let rt = tokio::runtime::Builder::new_multi_thread().worker_threads(3).enable_all().build().unwrap();
+    let out = rt.block_on(async {
+        let mut sc = match Scenario::new().await { Ok(s) => s, Err(e) => return e };
+        let obs = sc.probe(&kinds).await;
+        let end = sc.finish().await;
+        if end == "ended" { obs } else { format!("{obs} connection-{end}") }
+    });
+    rt.shutdown_background();
+    out
+}
+
+/// c12-statelock <hammer-ms> <seed>: for <hammer-ms> the router sends messages back to back (statistics
+/// reports, initiations, announcements, withdrawals) while four clients request the router list and the
+/// info page (by ingress id, by address) as fast as they are answered; every request must get its 200 and
+/// neither a handler nor the connection task may panic.
+fn statelock(args: &[String]) {
+    use std::sync::atomic::{AtomicBool, AtomicUsize, Ordering::SeqCst};
+    use std::time::{Duration, Instant};
+    use tokio::io::AsyncWriteExt;
+    let hammer_ms: u64 = args.first().and_then(|s| s.parse().ok()).unwrap_or(1500);
+    let seed: u64 = args.get(1).and_then(|s| s.parse().ok()).unwrap_or(1);
+    let render = crate::engines::bstream::render;
+    let rt = tokio::runtime::Builder::new_multi_thread().worker_threads(4).enable_all().build().unwrap();
+    let verdict = rt.block_on(async move {
+        let mut sc = match Scenario::new().await { Ok(s) => s, Err(e) => return e };
+        let stop = Arc::new(AtomicBool::new(false));
+        let sent = Arc::new(AtomicUsize::new(0));
+        let mut tx = sc.tx.take().unwrap();
+        let writer = {
+            let (stop, sent) = (stop.clone(), sent.clone());
+            let msgs: Vec<bytes::Bytes> = ["S.0", "I", "R.0.0.2.3.0.-", "S.0", "I", "S.0", "R.0.0.2.-.0.3", "I"].iter().map(|d| render(d)).collect();
+            tokio::spawn(async move {
+                let mut k = 0usize;
+                while !stop.load(SeqCst) && k < 400_000 {
+                    if tx.write_all(&msgs[k % msgs.len()]).await.is_err() { break; }
+                    k += 1;
+                    sent.store(k, SeqCst);
+                    if k % 64 == 0 { tokio::task::yield_now().await; }
+                }
+                tx   // handed back: dropping it is the end of the stream
+            })
+        };
+        let deadline = Instant::now() + Duration::from_millis(hammer_ms);
+        let mut clients = vec![];
+        for c in 0..4u64 {
+            let mut rng = Sm(seed.wrapping_mul(7919).wrapping_add(c));
+            let paths = [sc.info_path.clone(), "/routers/".to_string(), "/routers/198.51.100.1".to_string(), "/routers/?sort_by=state".to_string(), sc.info_path.clone()];
+            let (resources, metrics) = (sc.resources.clone(), sc.metrics.clone());
+            clients.push(tokio::spawn(async move {
+                let mut n = 0usize;
+                while Instant::now() < deadline {
+                    let p = paths[rng.below(paths.len() as u64) as usize].clone();
+                    let (resources, metrics, uri) = (resources.clone(), metrics.clone(), p.clone());
+                    let mut h = tokio::spawn(async move {
+                        let req = Request::builder().method("GET").uri(uri).body(Body::empty()).unwrap();
+                        let res = Server::verif_handle_request(req, &metrics, &resources).await;
+                        let status = res.status().as_u16();
+                        let _ = hyper::body::to_bytes(res.into_body()).await;
+                        status
+                    });
+                    let out = settle(&mut h, 5000).await;
+                    n += 1;
+                    if out != "200" { return Err(format!("GET {p} -> {out} (request {n} of client {c})")); }
+                }
+                Ok(n)
+            }));
+        }
+        let mut requests = 0usize;
+        let mut failure: Option<String> = None;
+        for c in clients {
+            match c.await { Ok(Ok(n)) => requests += n, Ok(Err(e)) => { failure.get_or_insert(e); } Err(_) => { failure.get_or_insert("a client task died".into()); } }
+        }
+        stop.store(true, SeqCst);
+        sc.tx = writer.await.ok();
+        let conn_txt = sc.finish().await;
+        let msgs = sent.load(SeqCst);
+        if failure.is_none() && conn_txt == "PANICKED" { failure = Some("the connection task panicked".into()); }
+        match failure {
+            None => format!("ok hammer requests={requests} messages={msgs} connection={conn_txt}"),
+            Some(f) => format!("FAIL hammer {f} (messages={msgs} answered={requests})"),
+        }
+    });
+    println!("{verdict}");
+    // the fixture's gate task and cloned gates live on the runtime: do not wait for them
+    rt.shutdown_background();
+}
